@@ -13,8 +13,12 @@ KANI_DIR = os.path.join(VERIF, "kani")
 CACHE = os.path.join(VERIF, ".cache")
 
 
+# leptos_i18n has #![deny(warnings)]; Kani's pinned nightly knows lints the repository's toolchain does not
+CRATE_ENV = {"jsstr": {"RUSTFLAGS": "--cap-lints warn"}}
+
+
 class KaniRun:
-    def __init__(self, crate, harnesses, jobs, timeout_s, extra_args=()):
+    def __init__(self, crate, harnesses, jobs, timeout_s, extra_args=(), env=None):
         self.crate = crate
         self.harnesses = list(harnesses)
         self.timeout_s = timeout_s
@@ -32,7 +36,7 @@ class KaniRun:
             cmd += ["--harness", "proofs::" + h]
         self.cmd = cmd
         self.log = tempfile.NamedTemporaryFile("w+", suffix=".kani.log", delete=False, dir=CACHE)
-        env = dict(os.environ, CARGO_NET_OFFLINE="true")
+        env = dict(os.environ, CARGO_NET_OFFLINE="true", **(env or CRATE_ENV.get(crate, {})))
         # memory cap per process tree: 40 GB virtual
         self.p = subprocess.Popen("ulimit -v 41943040; exec " + " ".join(cmd), shell=True, cwd=crate_dir, env=env,
                                   stdout=self.log, stderr=subprocess.STDOUT)
@@ -99,7 +103,7 @@ def playback(crate, harness, workdir):
     if os.path.isdir(dst):
         shutil.rmtree(dst)
     shutil.copytree(src, dst, ignore=shutil.ignore_patterns("target"))
-    env = dict(os.environ, CARGO_NET_OFFLINE="true")
+    env = dict(os.environ, CARGO_NET_OFFLINE="true", **CRATE_ENV.get(crate, {}))
     tgt = os.path.join(CACHE, "kani-target-" + crate)
     try:
         p = subprocess.run("ulimit -v 25165824; exec cargo kani --target-dir %s --exact --harness proofs::%s -Z concrete-playback --concrete-playback=inplace --output-format terse" % (tgt, harness),
